@@ -32,6 +32,17 @@ func genInject(seed uint64, n int, out string) {
 			if pod, _, err := fixturePod(f, d); err == nil && pod != nil {
 				_, already = pod.Annotations["sidecar.istio.io/status"]
 			}
+			// the kube-inject path (IntoObject) on the same document
+			o.Line("case", fmt.Sprint(c), "inject")
+			o.Line("kubeinject", "default", wire.Enc(f), fmt.Sprint(d))
+			c++
+			if thorough && !already {
+				for _, sn := range []string{"hold", "cni", "native"} {
+					o.Line("case", fmt.Sprint(c), "inject")
+					o.Line("kubeinject", sn, wire.Enc(f), fmt.Sprint(d))
+					c++
+				}
+			}
 			for si, s := range settings {
 				if already && si > 0 {
 					continue
